@@ -859,6 +859,13 @@ func (cc *Conn) processResponse(reqType message.Type, reqMessageID int32, isRequ
 			}
 			w.Message().SetMessageID(cc.GetMessageID())
 		}
+		// an explicit Empty/Reset answer of the handler is a reply like any other: it is remembered, so that a
+		// duplicate of the request is answered with it instead of being handed to the handler again
+		if reqType == message.Confirmable || reqType == message.NonConfirmable {
+			if err := cc.addResponseToCache(reqMessageID, w.Message()); err != nil {
+				return fmt.Errorf("cannot cache response: %w", err)
+			}
+		}
 		return nil
 	case sendJustAcknowledgeMessage(reqType, w):
 		// send message to separate(confirm received) message, if response is not modified
